@@ -569,6 +569,14 @@ func c03Scenarios(prop, tier string) []*CrashScenario {
 			}
 			scs = append(scs, &CrashScenario{Prop: prop, Name: "c03", Cfg: c, Preamble: pre, Alphabet: alpha, Depth: d, Oracles: oracles})
 		}
+		if tier == "quick" && c.IdxFS == 48 {
+			// second index-GC cycle over a file whose middle record the first
+			// cycle already marked deleted (merge of deleted spans), then a
+			// recovery by rescan: one more flushed Put makes the first record
+			// stale, so that a single IndexGC op merges
+			pre := append(append([]Op{}, gcPreambles()[preMergeDeleted]...), Op{Kind: OpPut, K: 1, V: 1}, Op{Kind: OpFlush})
+			scs = append(scs, &CrashScenario{Prop: prop, Name: "c03-merge", Cfg: c, Preamble: pre, Alphabet: alpha, Depth: 1, Oracles: oracles})
+		}
 	}
 	return scs
 }
@@ -922,6 +930,13 @@ func c09Scenarios(tier string) []*SeqScenario {
 					scs = append(scs, &SeqScenario{Prop: "C09", Name: fmt.Sprintf("c09-straddle/%d->%d", b1, b2), Cfg: cc,
 						Preamble: []Op{P(4, 1), opF, P(4, 2), opF, P(4, 1), opF}, Alphabet: alpha, Depth: depth - 2,
 						Setup: c09Setup(mb), Final: c09Final(b2), Nontrivial: sharedBucketNontrivial})
+					// single-key record lists (22 bytes) that end exactly on the
+					// index file-size limit: the translation writes the whole new
+					// index in one flush, so every list meets a boundary
+					cx := cfg(p, false, b1, 22, 48)
+					scs = append(scs, &SeqScenario{Prop: "C09", Name: fmt.Sprintf("c09-exactfit/%d->%d", b1, b2), Cfg: cx,
+						Alphabet: alpha, Depth: depth - 1,
+						Setup: c09Setup(mb), Final: c09Final(b2), Nontrivial: sharedBucketNontrivial})
 					c1 := cfg(p, false, b1, 1, 1)
 					scs = append(scs, &SeqScenario{Prop: "C09", Name: fmt.Sprintf("c09-firstfile/%d->%d", b1, b2), Cfg: c1,
 						Preamble: []Op{P(0, 1), opF, P(4, 1), opF, P(0, 2), opF, P(4, 2), opF, P(0, 1), opF, {Kind: OpIdxGC, B: true}}, Alphabet: alpha, Depth: depth - 2,
@@ -1068,6 +1083,75 @@ func recoverC09(sc *CrashScenario, img vos.Image, info crashInfo, c *Collector) 
 		if v != nil {
 			return v
 		}
+	}
+	// Life goes on after an interrupted re-bucketing: open with the old size,
+	// change the contents, close, and re-bucket again. What the interrupted
+	// attempt left behind must not leak into the second attempt.
+	cc := sc.Cfg
+	fw := &World{Cfg: cc, FS: vos.FromImage(img), Model: map[string][]byte{}, GCInt: 1000 * 3600e9, Sync: 1000 * 3600e9, Keys: info.keys, Probes: info.probes, crashed: true}
+	setMapOrder(cc)
+	var v *Violation
+	func() {
+		defer func() {
+			if r := recover(); r != nil {
+				v = violO("crash", "panic", "panic in the continuation after an interrupted re-bucketing: %v", r)
+				fw.opened = false
+			}
+		}()
+		if err := fw.Open(); err != nil {
+			return
+		}
+		// the contents as recovered (what the old-size open lost is TR1's
+		// business, reported above)
+		for _, k := range info.keys {
+			got, found, err := fw.S.Get(k.Raw)
+			if err != nil {
+				return
+			}
+			if found {
+				fw.Model[string(k.Digest)] = append([]byte{}, got...)
+			}
+		}
+		var present []int
+		for i, k := range info.keys {
+			if _, ok := fw.Model[string(k.Digest)]; ok {
+				present = append(present, i)
+			}
+		}
+		cont := []Op{}
+		if len(present) > 0 {
+			cont = append(cont, Op{Kind: OpRemove, K: present[0]})
+		}
+		if len(present) > 1 {
+			cont = append(cont, Op{Kind: OpPut, K: present[1], V: 3})
+		}
+		cont = append(cont, Op{Kind: OpPut, K: 2, V: 1}, Op{Kind: OpFlush}, Op{Kind: OpRebits, A: int(newBits)}, Op{Kind: OpReads}, Op{Kind: OpIterate},
+			Op{Kind: OpReopen, A: 1}, Op{Kind: OpReads})
+		for _, op := range cont {
+			c.res.Transitions++
+			if sv := fw.Step(op); sv != nil {
+				if op.Kind == OpRebits && sv.Symptom == "open-error" {
+					// a refused open is not "opens successfully with fewer keys"
+					c.count("c09.refused_opens", 1)
+					fw.opened = false
+					return
+				}
+				v = sv
+				v.Oracle = "crash"
+				v.Symptom = "post-recovery:" + v.Symptom
+				v.Trigger = "second-rebucketing-after-interrupted-one"
+				v.Detail = fmt.Sprintf("interrupted re-bucketing %d->%d, then open with %d bits, [%s] (failed at %s): %s", sc.Cfg.Bits, newBits, sc.Cfg.Bits, opsString(cont), op, v.Detail)
+				return
+			}
+		}
+		c.count("c09.second_rebucketing_checked", 1)
+	}()
+	func() {
+		defer func() { recover() }()
+		fw.Close()
+	}()
+	if v != nil {
+		return v
 	}
 	return nil
 }
